@@ -90,11 +90,11 @@ def _to_triplets(
 
 def _to_len_bucket(seqs):
     ans = {}
-    for seq in seqs:
+    for index, seq in enumerate(seqs):
         _len = len(seq)
         if _len not in ans:
             ans[_len] = []
-        ans[_len].append(seq)
+        ans[_len].append((index, seq))
     return ans
 
 
@@ -153,8 +153,10 @@ def kdtree(
     if custom_distance == "hamming":
         buckets, ans = _to_len_bucket(seqs), []
         for bucket in buckets.values():
-            ans += _kdtree_leven(
-                bucket,
+            # positions within a length bucket are mapped back to input positions
+            indices = [index for index, _ in bucket]
+            bucket_triplets = _kdtree_leven(
+                [seq for _, seq in bucket],
                 max_edits,
                 max_returns,
                 n_cpu,
@@ -163,6 +165,7 @@ def kdtree(
                 "triplets",
                 compression,
             )
+            ans += [(indices[i], indices[j], dist) for i, j, dist in bucket_triplets]
         return _make_output(ans, output_type, seqs)
     return _kdtree_leven(
         seqs,
